@@ -953,7 +953,13 @@ def _suite_cmds(ctx, tier):
     rng = random.Random(int(ctx.seed) * 7919 + 12)
     cmds = []
     cmds += seed_cmds(rng, "quick")[::7]
-    cmds += [c for c in prime_cmds(rng, "quick") if " cert=" not in c and " w=1" not in c][::5]
+    pc = prime_cmds(rng, "quick")
+    cmds += [c for c in pc if " cert=" not in c and " w=1" not in c][::5]
+    # priIsPrimeW (w=1) on the classes built around its base tables, for values that are a word in every configuration
+    def small_w(c):
+        a = next((t[3:] for t in c.split() if t.startswith("a=x")), "")
+        return " w=1" in c and a[8:].strip("0") == "" and any(k in c for k in ("cls=strong-pseudoprime", "cls=carmichael", "cls=known-prime"))
+    cmds += [c for c in pc if small_w(c)]
     cmds += tiny_curve_cmds(rng, "quick")[::9]
     cmds += safe_group_cmds(rng, "quick", suite=True)[::2]
     cmds += ["belsValM m=x87000000000000000000000000000000 len=16 cls=std0", "ppIrred a=x870000000000000000000000000000000100000000000000 cls=belt"]
